@@ -8,6 +8,11 @@ export CARGO_NET_OFFLINE=true CARGO_BUILD_JOBS=8
 git -C /repo worktree remove --force $WT 2>/dev/null
 git -C /repo worktree add -q --detach $WT HEAD || exit 2
 declare -A DEMO=(
+ [C07f_ineffective_trap_keeps_parent_listing]="-p yash-builtin --test c07f_trap_listing_after_ineffective_trap"
+ [C06f_inner_program_end_by_source_position]="-p yash-syntax -E binary(c06f_alias_then_command_subst)"
+ [C02f_blank_line_clears_executed_flag]="-p yash-semantics --test c02f_status_after_trailing_blank_line"
+ [C05f_stat_failure_counts_as_existing]="-p yash-semantics --test c05f_glob_unsearchable_dir"
+ [C03f_short_circuit_only_on_computed_left_operand]="-p yash-arith --test c03f_short_circuit_variable_operand"
  [C04f_case_continue_keeps_fall_through]="-p yash-semantics --test c04f_case_fall_through_then_continue"
  [C01f_read_at_eof_keeps_old_values]="-p yash-builtin --test c01f_read_at_eof"
  [C16f_get_scalar_skips_valueless_local]="-p yash-builtin --test c16f_scalar_lookup"
